@@ -228,6 +228,15 @@ def special_scenarios(years=common.YEARS):
                     '1099-r:1.box_2b_taxable_not_determined': 'no', '1099-r:1.box_2b_total_distribution': 'no',
                     '1099-r:1.box_7_ira_sep_simple': 'no', '1099-r:1.box_4': '150.00', 'pensions_annuities': 'no'})
         out.append((y, ['1040'], 9010, dict(base, status='Single', wages=40000, overrides=mix)))
+        # North Carolina, a pension whose Form 1099-R uses both state lines (moved during the year: Virginia first, then N.C.) and an
+        # interest statement with N.C. on its second state line
+        ncr = dict(nc, **{'number_1099-r': '1', '1099-r:0.belongs_to': 'taxpayer', '1099-r:0.box_1': '18000.00', '1099-r:0.box_2a': '18000.00',
+                          '1099-r:0.box_2b_taxable_not_determined': 'no', '1099-r:0.box_2b_total_distribution': 'no', '1099-r:0.box_7_ira_sep_simple': 'no',
+                          '1099-r:0.box_4': '900.00', '1099-r:0.box_14_1': '500.00', '1099-r:0.box_14_1_state': 'VA', '1099-r:0.box_14_2': '300.00',
+                          '1099-r:0.box_14_2_state': 'NC', 'pensions_annuities': 'no', 'pensions_annuities_adjustments': 'no',
+                          'number_1099-int': '1', '1099-int:0.belongs_to': 'taxpayer', '1099-int:0.box_1': '210.00', '1099-int:0.box_15_1': 'SC',
+                          '1099-int:0.box_17_1': '11.00', '1099-int:0.box_15_2': 'NC', '1099-int:0.box_17_2': '7.00'})
+        out.append((y, ['1040', 'nc_d-400'], 9011, dict(base, status='Single', wages=30000, overrides=ncr)))
         # North Carolina, married filing jointly with three children who qualify for the child tax credit (child deduction for several children)
         nck = dict(nc, number_under_18='3', number_under_6='0')
         out.append((y, ['1040', 'nc_d-400'], 9009, dict(base, status='MarriedFilingJointly', wages=95000, n_dep=3, n_u17=3, overrides=nck)))
